@@ -577,3 +577,25 @@ def r20_filter_any(text):
 
 
 REWRITES['R20'] = r20_filter_any
+
+def r21_or_else(text):
+    """R21:  `X.or_else(|| Y)`  ->  `match X { Some(v_) => Some(v_), None => Y }`
+    (Option::or_else with a parameterless closure: its definition; lets Y use variables that the
+    closure would have captured mutably)."""
+    n = 0
+    while True:
+        m = re.search(r'\.\s*or_else\s*\(', text)
+        if not m:
+            break
+        cl = _closure_at(text, m.end() - 1)
+        if not cl or cl[0] != '':
+            raise ValueError('R21: or_else argument is not a parameterless closure')
+        _, body, end = cl
+        rs = _receiver_start(text, m.start())
+        recv = text[rs:m.start()].strip()
+        text = text[:rs] + 'match %s { Some(v_) => Some(v_), None => %s }' % (recv, body) + text[end:]
+        n += 1
+    return text, n
+
+
+REWRITES['R21'] = r21_or_else
